@@ -110,7 +110,7 @@ def to_xarray(u: Unit):
                           z3.And(z_int(int_of(ry.lo)) == 0, z_int(int_of(ry.hi)) == D.ROWS, z_int(int_of(rx.lo)) == 0, z_int(int_of(rx.hi)) == D.COLS) if ok_coords else z3.BoolVal(False),
                           zb(coords.get("y").info.get("kwargs", {}).get("dims").v == "y" and coords.get("x").info.get("kwargs", {}).get("dims").v == "x") if ok_coords else z3.BoolVal(False))
             u.oblige(p, f"to_xarray.values_coords[{bucket}]", goal, {}, REC_REPLAY)
-        u.static(f"to_xarray.cover[{bucket}]", n_full >= 1, fi.qualname, f"{n_full} paths exporting a non-empty container")
+        u.guard(f"to_xarray.cover[{bucket}]", n_full >= 1, fi.qualname, f"{n_full} paths exporting a non-empty container")
 
 
 @unit("C03", "alias")
@@ -555,4 +555,4 @@ def debug_reference_snapshot(u: Unit):
                 stores.append(DU.norm(fn.node, nd.value))
     ok = bool(stores) and all(("copy(deep=True)" in e.replace(" ", "")) or "deepcopy(" in e for e in stores)
     u.static("debug.reference_snapshot_is_a_deep_copy", ok, fn.qualname, f"value stored under intermediate['last']: {stores}", replay=DEBUGREC_REPLAY, witness={"stored": stores})
-    u.static("debug.reference_snapshot.cover", len(stores) >= 1, fn.qualname, f"{len(stores)} assignments to intermediate['last'] found")
+    u.guard("debug.reference_snapshot.cover", len(stores) >= 1, fn.qualname, f"{len(stores)} assignments to intermediate['last'] found")
